@@ -603,12 +603,19 @@ const c03CrashRule = "one case = (history, crash state); histories of 2-11 ops (
 // itself while restarting from a crash state must be reported as a failed
 // restart, not take the check down as "inconclusive".
 func TestVerif_C03_Crash(t *testing.T) {
-	self := os.Getenv("VERIF_SELF")
-	if os.Getenv("VERIF_C03_INNER") != "" || self == "" {
+	if os.Getenv("VERIF_C03_INNER") != "" || os.Getenv("VERIF_SELF") == "" {
 		c03CrashInner(t)
 		return
 	}
-	marker := filepath.Join(os.TempDir(), fmt.Sprintf("c03-marker-%d", os.Getpid()))
+	c03Outer(t, "crash", c03CrashRule, "C03/restart-terminated-process")
+}
+
+// c03Outer re-executes the running test in an inner process and turns an
+// abnormal exit of that process (no rapid verdict) into a violation naming the
+// restart that was in progress (marker file written by c03Mark).
+func c03Outer(t *testing.T, sub, rule, sig string) {
+	self := os.Getenv("VERIF_SELF")
+	marker := filepath.Join(os.TempDir(), fmt.Sprintf("c03-marker-%s-%d", sub, os.Getpid()))
 	defer os.Remove(marker)
 	cmd := exec.Command(self, os.Args[1:]...)
 	cmd.Env = append(os.Environ(), "VERIF_C03_INNER=1", "VERIF_C03_MARKER="+marker)
@@ -627,12 +634,11 @@ func TestVerif_C03_Crash(t *testing.T) {
 	if len(state) == 0 {
 		t.Fatalf("inner process exited (%v) before any restart was attempted", err)
 	}
-	rec := vstat.New(t, "C03", "crash", c03CrashRule)
+	rec := vstat.New(t, "C03", sub, rule)
 	rec.Case(true, string(state))
 	if len(out) > 1500 {
 		out = out[len(out)-1500:]
 	}
-	sig := "C03/restart-terminated-process"
 	if rec.KnownHit(sig, "rqlite terminates the process while restarting from a crash state") {
 		return
 	}
